@@ -532,7 +532,9 @@ static bool twinOps(ChildOut &co, char stage, const Circuit &start, const Coloqu
   long long calls = 0;
   bool inexact = false;
   try {
-    if (stage == 'L') {
+    // (DetailedPlacer::place whose callback throws at invocation 0 ends inside DetailedPlacer::legalize, after its export)
+    if (stage == 'L' || (stage == 'D' && cbMode != 0 && throwAt == 0)) {
+      skipCallbacks = 1;
       Circuit c = start;
       params.check();
       Legalizer leg = Legalizer::fromIspdCircuit(c);
@@ -547,10 +549,6 @@ static bool twinOps(ChildOut &co, char stage, const Circuit &start, const Coloqu
       return true;
     }
     if (stage == 'D') {
-      if (cbMode != 0 && throwAt == 0) {
-        why = "throws_in_legalize_callback";
-        return false;
-      }
       Circuit c = start;
       c.legalize(params);
       Circuit legalized = c;
@@ -693,9 +691,10 @@ static void stageCase(ChildOut &co, const std::string &id, vh::Rng &g) {
     co.count(std::string("stage:") + st + "_" + (res == "ok" ? "returned" : cbThrew ? "callback_threw" : pkind == "rejected" ? "rejected_params" : "threw"));
     if (calls > 0) co.count(std::string("stage:") + st + "_callback_invocations", calls);
     if (tied) {
-      if (res == "ok" || (cbThrew && st == 'L')) {
+      bool inLegalize = st == 'L' || (st == 'D' && throwAt == 0);
+      if (res == "ok" || (cbThrew && inLegalize)) {
         // (a callback of legalization runs after the export: the circuit it leaves by throwing is the exported one)
-        std::string opn = st == 'G' ? "gfin " : st == 'L' ? "lexp ok " : "dexp ";
+        std::string opn = st == 'G' ? "gfin " : (st == 'L' || cbThrew) ? "lexp ok " : "dexp ";
         co.impl(opn + vc::solutionString(c));
         co.count(std::string("stage:tied_") + st + (cbMode == 0 ? "" : cbThrew ? "_callback_threw" : "_with_callback"));
       } else if (cbThrew) {
